@@ -39,7 +39,24 @@ type Run struct {
 	trace    bool
 	harness  []string
 	Workers  int
+	// SeamInvalid: the in-process seam was found unfaithful (probe outcomes differ from fresh processes,
+	// or an in-process result disagrees with the real CLI); the check is then re-run in degraded (CLI only) mode.
+	SeamInvalid string
+	probeRef    string
+	CLIOnly     bool // the check never uses the in-process seam
 }
+
+// WorkerProbe, when set, is run by every in-process worker before (twice) and after its shard; ProbeReference
+// computes the same probes with fresh processes. Set by package checks.
+var WorkerProbe func() string
+var ProbeReference func() string
+
+// Abandon: the in-process seam was found unfaithful during this (non-degraded) run; the check should stop
+// executing repository code in-process and return, main re-runs it in degraded mode.
+func (r *Run) Abandon() bool { return r.SeamInvalid != "" && !r.Degraded() && !r.CLIOnly && r.worker == nil }
+
+// Degraded reports whether this run uses the CLI-only seam.
+func (r *Run) Degraded() bool { return os.Getenv("VT_DEGRADED") == "1" }
 
 type workerSpec struct {
 	stage    string
@@ -59,7 +76,10 @@ func NewRun(id, tier, replay string) *Run {
 	r := &Run{ID: id, Tier: tier, Start: time.Now(), Cov: map[string]any{}, Level: "model_checking", Replay: replay}
 	r.Root = os.Getenv("VERIF_ROOT")
 	r.Repo = os.Getenv("VERIF_REPO")
-	r.Build = filepath.Join(r.Root, ".build")
+	r.Build = os.Getenv("VERIF_BUILD")
+	if r.Build == "" {
+		r.Build = filepath.Join(r.Root, ".build")
+	}
 	r.Crs = filepath.Join(r.Build, "crs")
 	if s := os.Getenv("VERIF_SEED"); s != "" {
 		r.Seed, _ = strconv.Atoi(s)
@@ -166,7 +186,18 @@ func Parallel[In, Out any](r *Run, stage string, in In, n int, body func(in In, 
 			w.Write(rb)
 			w.WriteByte('\n')
 		}
+		probe := func(tag string) {
+			if WorkerProbe == nil || r.Degraded() {
+				return
+			}
+			rb, _ := json.Marshal(record{T: "probe", Case: tag + "\x00" + WorkerProbe()})
+			w.Write(rb)
+			w.WriteByte('\n')
+		}
+		probe("start")
+		probe("again")
 		body(input, r.worker.shard, r.worker.n, emit)
+		probe("end")
 		w.Flush()
 		os.Exit(0)
 	}
@@ -213,6 +244,16 @@ func Parallel[In, Out any](r *Run, stage string, in In, n int, body func(in In, 
 				res = append(res, o)
 			case "hang":
 				hang = rec.Case
+			case "probe":
+				tag, digest, _ := strings.Cut(rec.Case, "\x00")
+				mu.Lock()
+				if r.probeRef == "" && ProbeReference != nil {
+					r.probeRef = ProbeReference()
+				}
+				if r.probeRef != "" && digest != r.probeRef && r.SeamInvalid == "" {
+					r.SeamInvalid = fmt.Sprintf("probe programs run in-process (%s of worker %s/%d) differ from fresh processes: %s", tag, stage, shard, firstDiff(r.probeRef, digest))
+				}
+				mu.Unlock()
 			}
 		}
 		err := cmd.Wait()
@@ -294,9 +335,27 @@ func lastInflight(stderr string) string {
 	return last
 }
 
+func firstDiff(a, b string) string {
+	la, lb := strings.Split(a, "\n"), strings.Split(b, "\n")
+	for i := range la {
+		if i >= len(lb) || la[i] != lb[i] {
+			x := ""
+			if i < len(lb) {
+				x = lb[i]
+			}
+			return fmt.Sprintf("probe #%d fresh=%q in-process=%q", i, la[i], x)
+		}
+	}
+	return "?"
+}
+
 // HarnessError records a failure of the machinery itself (not a verdict).
 func (r *Run) HarnessError(format string, a ...any) {
-	r.harness = append(r.harness, fmt.Sprintf(format, a...))
+	m := fmt.Sprintf(format, a...)
+	if strings.HasPrefix(m, "in-process and CLI disagree") && r.SeamInvalid == "" {
+		r.SeamInvalid = m
+	}
+	r.harness = append(r.harness, m)
 }
 
 func (r *Run) Report(v Violation) { r.viol = append(r.viol, v) }
@@ -451,6 +510,12 @@ func (r *Run) Finish() {
 		fmt.Printf("... %d further violations written to replays/%s/\n", newCount-40, r.ID)
 	}
 	r.Cov["known_findings_observed"] = len(knownSeen)
+	if r.Degraded() {
+		r.Cov["seam"] = "cli-degraded: the in-process seam was found unfaithful on this tree; every execution is a fresh process of the real CLI, bounds reduced"
+		r.Cov["exhaustive"] = false
+	} else {
+		r.Cov["seam"] = "in-process (validated against the real CLI) + CLI"
+	}
 	r.Cov["violations_distinct"] = len(uniq)
 	if r.Assume == nil {
 		r.Assume = []string{}
@@ -478,14 +543,14 @@ func (r *Run) Finish() {
 		}
 	}
 	fmt.Println()
-	if len(r.harness) > 0 {
-		for _, h := range r.harness {
-			fmt.Println("HARNESS-ERROR:", h)
-		}
-		os.Exit(2)
+	for _, h := range r.harness {
+		fmt.Println("HARNESS-ERROR:", h)
 	}
 	if newCount > 0 {
 		os.Exit(1)
+	}
+	if len(r.harness) > 0 {
+		os.Exit(2)
 	}
 	os.Exit(0)
 }
